@@ -1,14 +1,14 @@
 """C04 - stack walking recovers the true call chain of well-formed stacks.
 
 Specs: spec/WalkerAmd64.tla, spec/WalkerX86.tla, spec/WalkerArm.tla (arm on iOS and Linux, arm64 in both context
-layouts) in Mode "built": Build(chain) lays out a well-formed stack for every chain of up to MaxDepth calls (per call:
+layouts), spec/WalkerMips.tla (o32 and 64-bit) in Mode "built": Build(chain) lays out a well-formed stack for every chain of up to MaxDepth calls (per call:
 frame-pointer record / unwind record of each kind / scan-only, filler and grand-callee parameter sizes), TLC checks
 on the model that the walk is exactly the generated chain, stops at its end, and knows the frame pointer wherever the
 chain hands it on (MatchesBuild); every built stack is then walked by the real walk_stack and compared frame for
 frame: return address, sp, technique label, callee-saved register validity and values, parameter size."""
 import json
 from . import core
-from .c05 import run_model_arch, MODELS
+from .c05 import run_model_arch, MODELS, NO_FP_TECHNIQUE
 
 
 def run(ctx):
@@ -16,11 +16,11 @@ def run(ctx):
     ctx.build()
     total = {"states": 0, "transitions": 0, "evaluations": 0, "distinct": 0, "classes": {}, "samples": [], "tlc": {}}
     last64 = None
-    for arch in ("amd64", "x86", "arm-ios", "arm-linux", "arm64", "arm64old"):
+    for arch in ("amd64", "x86", "arm-ios", "arm-linux", "arm64", "arm64old", "mips32", "mips64"):
         mc, rep, trace = run_model_arch(ctx, arch, None, True, reuse=last64 if arch == "arm64old" else None)
         if arch == "arm64":
             last64 = mc
-        need = ["frame:cfi", "frame:scan", "built"] + ([] if arch == "arm-linux" else ["frame:frame_pointer"])
+        need = ["frame:cfi", "frame:scan", "built"] + ([] if arch in NO_FP_TECHNIQUE else ["frame:frame_pointer"])
         for n in need:
             if rep["classes"].get(n, 0) == 0:
                 raise core.ToolFailure("vacuous replay (%s): class %s never produced" % (arch, n))
@@ -40,14 +40,14 @@ def run(ctx):
         "rule": "every buildable chain of 1..MaxDepth calls laid out on an NW-word stack, per architecture: amd64 {frame pointer, STACK CFI, scan} x filler; "
                 "x86 {ebp frame with 8 bytes of parameters, F1 with one of STACK WIN frame data / FPO / FPO with base pointer / STACK CFI, scan} so that grand-callee "
                 "parameter sizes 0 / 8 / 12 meet every record kind; arm (iOS: with frame records; Linux: without) and arm64 / arm64-old {frame record, CFI saving fp, "
-                "CFI defining only .cfa/.ra, scan}; non-trivial = distinct built stack with at least one caller",
+                "CFI defining only .cfa/.ra, scan}; mips o32 and 64-bit {CFI saving fp, CFI defining only .cfa/.ra, scan with a code pointer in the argument home slots}; non-trivial = distinct built stack with at least one caller",
         "tlc": total["tlc"], "replay_classes": total["classes"],
     }
     return ctx.finish("model_checking", cov, assumptions=[
         "well-formedness preconditions are those of Buildable in each Walker module (a scanned frame is not followed by one that needs its frame pointer; a frame that keeps "
         "no frame pointer holds a value addressing no stack memory; a STACK CFI rule's callee leaves no parameters behind)",
         "for STACK WIN frames only %ebp is compared among the callee-saved registers (the stale validity of ebx/esi/edi is the finding recorded under C07)",
-        "mips has no builder; PAC-tagged return addresses are exercised in the 'any' mode (C05), not in built stacks"])
+        "PAC-tagged return addresses are exercised in the 'any' mode (C05), not in built stacks"])
 
 
 def replay(ctx, path):
